@@ -433,3 +433,36 @@ def run_program(rc, prog, setup=None, teardown=None):
             gc.collect()
         seams.end_run()
     return interp
+
+
+def read_child(r, pid, deadline_s=20.0):
+    """Everything a forked child writes to the pipe, until it closes it -- or until the deadline: a child that
+    hangs is killed (SIGKILL) and the fact is returned, so that no check ever waits for a child for ever.
+    Returns (data, status, hung)."""
+    import os
+    import select
+    import signal
+    import time
+    buf = b""
+    end = time.monotonic() + deadline_s
+    hung = False
+    while True:
+        left = end - time.monotonic()
+        if left <= 0:
+            hung = True
+            break
+        ready, _w, _x = select.select([r], [], [], min(left, 1.0))
+        if not ready:
+            continue
+        chunk = os.read(r, 65536)
+        if not chunk:
+            break
+        buf += chunk
+    os.close(r)
+    if hung:
+        try:
+            os.kill(pid, signal.SIGKILL)
+        except OSError:
+            pass
+    _pid, status = os.waitpid(pid, 0)
+    return buf, status, hung
